@@ -357,7 +357,7 @@ func (s *Sim) byzStalePolka(b *Byz, target *kit.Node, rs *cstypes.RoundState) {
 	}
 }
 
-var invalidRules = []string{"evidence-twice", "evidence-already-committed", "commit-nil-votes-counted", "height+1", "last-block-id", "commit-other-block", "commit-bad-sig", "commit-below-quorum", "app-hash",
+var invalidRules = []string{"evidence-twice", "evidence-already-committed", "old-uncommitted-block", "commit-nil-votes-counted", "height+1", "last-block-id", "commit-other-block", "commit-bad-sig", "commit-below-quorum", "app-hash",
 	"validators-hash", "next-validators-hash", "time+1ns", "time-not-after-parent", "unknown-proposer", "num-txs", "data-hash", "commit-hash"}
 
 // byzPropose crafts b's proposal for the target's (h, r).
@@ -383,9 +383,20 @@ func (s *Sim) byzPropose(b *Byz, target *kit.Node, rs *cstypes.RoundState, late 
 		rule := ""
 		if b.Strat == "invalid-proposer" {
 			rule = invalidRules[s.tape.Draw(len(invalidRules))]
-		} else if pend, _ := target.EvPool.PendingEvidence(1 << 20); (len(pend) > 0 || len(s.mon.c19.commitH) > 0) && s.tape.Chance(1, 3) {
-			// whatever its strategy, a Byzantine proposer may abuse the evidence list once there is evidence around
-			rule = invalidRules[s.tape.Draw(2)]
+		} else if b.Strat != "lock-bait" && b.Strat != "late-proposer" && s.tape.Chance(1, 3) {
+			// whatever its strategy (bar the two whose proposals have to be acceptable), a Byzantine proposer takes the opportunities the run offers: abuse of
+			// the evidence list once there is evidence around, a block of an earlier height that the
+			// validators had validated but not committed
+			var opp []string
+			if pend, _ := target.EvPool.PendingEvidence(1 << 20); len(pend) > 0 || len(s.mon.c19.commitH) > 0 {
+				opp = append(opp, "evidence-twice", "evidence-already-committed")
+			}
+			if len(s.oldUncommitted(h)) > 0 {
+				opp = append(opp, "old-uncommitted-block", "old-uncommitted-block")
+			}
+			if len(opp) > 0 {
+				rule = opp[s.tape.Draw(len(opp))]
+			}
 		}
 		blk := s.craftBlock(b, target, rs, st, variant, rule)
 		if blk == nil {
@@ -406,6 +417,10 @@ func (s *Sim) byzPropose(b *Byz, target *kit.Node, rs *cstypes.RoundState, late 
 		bp = &byzProposal{block: blk, parts: ps, prop: p, kind: kind}
 		b.props[key] = bp
 		s.registerBlock(blk, ps, true, kind)
+		if rule == "old-uncommitted-block" {
+			// known already under its own height: the monitors must also find it under this one
+			s.blocksByH[h] = append(s.blocksByH[h], &knownBlock{block: blk, parts: ps, id: id, height: h, byByz: true, kind: kind})
+		}
 		s.res.Fault("byz-proposal:" + kind)
 		s.ah.Add("byzprop", kind)
 		s.trace("BYZ%d crafts proposal h%d r%d variant %d %s %s", b.ID, h, r, variant, kind, short(id.Hash))
@@ -435,8 +450,34 @@ func (s *Sim) byzPropose(b *Byz, target *kit.Node, rs *cstypes.RoundState, late 
 // craftBlock builds a block on top of the target's state the way
 // BlockOperations.CreateProposalBlock does for an empty pool, optionally
 // breaking exactly one validity rule.
+// oldUncommitted lists blocks of heights below h that correct nodes held complete (and so
+// validated) or that a Byzantine proposer made valid, and that were not the ones committed.
+func (s *Sim) oldUncommitted(h uint64) []*knownBlock {
+	var out []*knownBlock
+	for hh := uint64(1); hh < h; hh++ {
+		ch, ok := s.mon.committed[hh]
+		if !ok {
+			continue
+		}
+		for _, kb := range s.blocksByH[hh] {
+			if kb.id.Hash != ch && (kb.kind == "correct" || kb.kind == "byz-valid") {
+				out = append(out, kb)
+			}
+		}
+	}
+	return out
+}
+
 func (s *Sim) craftBlock(b *Byz, target *kit.Node, rs *cstypes.RoundState, st cstate.LatestBlockState, variant int, rule string) *types.Block {
 	h := rs.Height
+	if rule == "old-uncommitted-block" {
+		// re-propose, at this height, a block the validators had validated in a failed round of an earlier one
+		c := s.oldUncommitted(h)
+		if len(c) == 0 {
+			return nil
+		}
+		return c[s.tape.Draw(len(c))].block
+	}
 	var commit *types.Commit
 	if h == st.InitialHeight {
 		commit = types.NewCommit(0, 0, types.BlockID{}, nil)
